@@ -2001,6 +2001,21 @@ pub fn apply(disk: &mut Disk, s: &Surgery) -> Result<(), String> {
             }
             Ok(())
         }
+        Surgery::RvrnFeature { feature_index } => {
+            let t = tag_from_str("GSUB");
+            let old = disk.tables.get(&t).ok_or("surgery: no GSUB table")?.clone();
+            let fl = usize::from(be16(&old, 6).ok_or("surgery: short GSUB")?);
+            let count = usize::from(be16(&old, fl).ok_or("surgery: no FeatureList")?);
+            let at = fl + 2 + 6 * usize::from(*feature_index);
+            if fl == 0 || usize::from(*feature_index) >= count || at + 6 > old.len() {
+                return Err("surgery: no such feature record".into());
+            }
+            let mut new = old.to_vec();
+            new[at..at + 4].copy_from_slice(b"rvrn");
+            disk.tables.insert(t, Rc::new(new));
+            disk.tables.entry(FVAR).or_insert_with(|| Rc::new(synthetic_fvar()));
+            Ok(())
+        }
         Surgery::ManyTables { count, len } => {
             let body: Rc<Vec<u8>> = Rc::new((0..usize::from(*len)).map(|i| (i * 37 + 11) as u8).collect());
             let digit = |v: usize| b"0123456789abcdefghijklmnopqrstuvwxyz"[v % 36];
